@@ -133,6 +133,24 @@ def run_corr_budgets(ctx, sources, budgets, obs_eval, log, shard_size=150, label
 FUN_RE = re.compile(r"(?<![0-9a-fA-F#=S.])f\d+\.\d+")
 
 
+def canon_graph(res):
+    """value graph without identity for floats (immutable: sharing of a float box is unobservable); the other
+    objects renumbered by first appearance"""
+    fl = dict(re.findall(r"#(\d+)=(F[0-9a-f]{16})", res))
+    if not fl:
+        return res
+    res = re.sub(r"#(\d+)=(F[0-9a-f]{16})", lambda m: m.group(2), res)
+    res = re.sub(r"#(\d+)(?![\d=])", lambda m: fl.get(m.group(1), m.group(0)), res)
+    new = {}
+
+    def ren(m):
+        k = m.group(1)
+        if k not in new:
+            new[k] = str(len(new))
+        return "#" + new[k]
+    return re.sub(r"#(\d+)", ren, res)
+
+
 def canon_sem(o):
     """implementation observation -> what Sem.v renders: result (functions as `fn`), output"""
     parts = o.split(" | ")
@@ -141,7 +159,7 @@ def canon_sem(o):
     res, out = parts[0], parts[1]
     if res.startswith("OK "):
         res = canon_eval(o).split(" | ")[0]
-        res = FUN_RE.sub("fn", res)
+        res = canon_graph(FUN_RE.sub("fn", res))
     return res + " | " + out
 
 
@@ -193,11 +211,14 @@ def run_sem(ctx, sources, obs_eval, log, fuel=3000, shard_size=100, label="sem",
     out = []
     for n, i in enumerate(bad):
         spec = "(not recomputed)"
-        if n < 5:
+        if n < 40:
             wv = True if with_value is None else with_value[i]
             fn = "model_sem utab stab ptab rtab %s %d %s" % ("true" if wv else "false", fuel, vlib.coq_text(sources[i]))
             sh2, res2, err2 = vlib.run_coq_shards(ctx.prop, hdr, ["0%N"], lambda: "Eval vm_compute in (%s)." % fn, tag=label + "m")
             spec = front.decode_text_output(res2.get(0, "")) if res2 else None
+        if spec is not None and spec.startswith("BUDGET"):
+            ctx.count("sem-out-of-fuel-unjudged")     # recursion deeper than the evaluator's fuel: a resource limit, nothing is judged
+            continue
         out.append((i, canon_sem(obs_eval[i]), spec))
-    log("%s: %d sources against Sem.v in Coq, %d contradict the specification" % (label, len(items), len(bad)))
+    log("%s: %d sources against Sem.v in Coq, %d contradict the specification" % (label, len(items), len(out)))
     return out
